@@ -185,6 +185,12 @@ def component_of(h: Harness, idx: int) -> str:
   return "?"
 
 
+def history_span(h: Harness):
+  mjm = h.mjm
+  a = 1 + mjm.nq + mjm.nv + mjm.na
+  return a, a + mjm.nhistory
+
+
 DERIVED = ["qacc", "qfrc_constraint", "qfrc_smooth", "qfrc_bias", "qfrc_passive", "qfrc_actuator", "actuator_force", "sensordata", "xpos",
            "xquat", "cvel", "qacc_smooth", "act_dot", "energy", "nefc", "ne", "nf", "nl"]
 
@@ -246,9 +252,21 @@ def replay(ctx, h: Harness, beh: List[dict], pid_key: dict, tol: float = 0.0, ch
     for w in W:
       exp, dref = h.ref(terms[w], w)
       got = st[w]
-      ok = np.array_equal(got, exp) if tol == 0.0 else np.allclose(got, exp, rtol=tol, atol=tol)
+      if tol == 0.0:
+        # bitwise, except that history cells (time stamps computed in float32 by reset kernels vs rounded from MuJoCo's doubles by
+        # make_data/put_data) may differ in the last bit
+        neq = got != exp
+        if neq.any():
+          hs, he = history_span(h)
+          cells = np.arange(got.size)
+          inh = (cells >= hs) & (cells < he)
+          neq &= ~(inh & np.isclose(got, exp, rtol=3e-7, atol=1e-9))
+        ok = not neq.any()
+      else:
+        neq = ~np.isclose(got, exp, rtol=tol, atol=tol)
+        ok = not neq.any()
       if not ok:
-        bad = np.nonzero(got != exp)[0]
+        bad = np.nonzero(neq)[0]
         comps = sorted({component_of(h, int(i)) for i in bad})
         selected = terms[w] != prev_term[w] or kind in ("reset", "keyarray", "keyscalar") and (len(terms[w]) <= 1)
         rel = float(np.nanmax(np.abs(got[bad].astype(np.float64) - exp[bad]) / np.maximum(np.abs(exp[bad].astype(np.float64)), 1e-3)))
